@@ -78,6 +78,15 @@ var c15Datasets = []c15Dataset{
 		},
 		Table: "goos", Row: ".fullname", Col: ".file",
 	},
+	{
+		// (vii) rows sorted by a requested order (@num) over spellings of numbers: zero-padded, plain and fractional
+		// values interleave; the row keys are collected from a map, so only a total order gives one arrangement
+		Name: "rows-in-num-order",
+		Files: []string{
+			"BenchmarkA/p=050 1 5 ns/op\nBenchmarkA/p=75 1 7 ns/op\nBenchmarkA/p=62.5 1 6 ns/op\nBenchmarkA/p=025 1 2 ns/op\nBenchmarkA/p=12.5 1 1 ns/op\n",
+		},
+		Table: ".config", Row: "/p@num", Col: ".file",
+	},
 }
 
 // c15LargeDatasets is a ladder of cell sizes around powers of two (2^10 and
